@@ -108,7 +108,7 @@ def run(ck):
                   'handled=%s mutations=%s' % (summary['tenant_requests_handled'], summary['tenant_mutations']))
             # ---- model = implementation: histories, then every cell of the matrix
             hcases = [{'t': [world_term(r['case']), r['obs']]} for r in hists]
-            hres = ck.eval_cases(IMPORTS, HIST_T, 'check_history', hcases, shard=max(250, len(hcases) // 48 + 1), timeout=1200, label='hist')
+            hres = ck.eval_cases(IMPORTS, HIST_T, 'check_history', hcases, shard=max(250, len(hcases) // 16 + 1), timeout=1200, label='hist')
             hbad = [i for i, r in enumerate(hres) if r is not True]
             detail = ''
             if hbad:
@@ -137,7 +137,7 @@ def run(ck):
                 ecases.append({'t': [world_term({'t': [admin, ops[:-1]]}), hr['obs'], dbs, auths,
                                      [o['t'][2] for o in before['obs']], [o['t'][2] for o in after['obs']]]})
                 ck.nontrivial(before['key'])
-            eres = ck.eval_cases(IMPORTS, ENUM_T, 'check_enum', ecases, shard=max(100, len(ecases) // 48 + 1), timeout=1200, label='enum')
+            eres = ck.eval_cases(IMPORTS, ENUM_T, 'check_enum', ecases, shard=max(100, len(ecases) // 16 + 1), timeout=1200, label='enum')
             ebad = [i for i, r in enumerate(eres) if r is not True]
             detail = ''
             if ebad:
@@ -152,7 +152,8 @@ def run(ck):
                   'after a restart over the same store (%d histories)' % (summary['enumerated_max_len'], len(ecases)),
                   ok_shape and not ebad and len(ecases) > 0, 'correspondence', detail)
             ck.cov['input_distribution']['enumerated_histories'] = {k: summary[k] for k in ('enumerated_histories', 'enumerated_max_len', 'probe_cases', 'probes_by_entitled_key')}
-            cases = []
+            from coqterm import to_coq
+            cases, icases, worlds_ix, bodies_ix = [], [], {}, {}
             for r in cells:
                 w, verb, path, auth, ct = r['case']['t']
                 seen, uniq = set(), []        # the params variants of one method are the same model body: compare each (body, class) once
@@ -163,7 +164,14 @@ def run(ck):
                         uniq.append(o)
                 r['uniq'] = uniq
                 cases.append({'t': [{'t': [world_term(w), verb, path, auth, ct]}, uniq]})
-            res = ck.eval_cases(IMPORTS, CELL_T, 'check_cell', cases, shard=max(60, len(cases) // 48 + 1), timeout=1200)
+                wi = worlds_ix.setdefault(to_coq(world_term(w)), len(worlds_ix))
+                pairs = [{'t': [{'nat': bodies_ix.setdefault(to_coq(o['t'][0]), len(bodies_ix))}, o['t'][1]]} for o in uniq]
+                icases.append({'t': [{'nat': wi}, verb, path, auth, ct, pairs]})
+            # worlds and bodies are defined once in the prelude of every shard and referred to by index
+            prelude = (IMPORTS + '\nFrom Coq Require Import List String.\nImport ListNotations.\nOpen Scope list_scope.\n'
+                       'Definition WS : list world := [%s].\nDefinition BS : list body := [%s].\n'
+                       % ('; '.join(sorted(worlds_ix, key=worlds_ix.get)), '; '.join(sorted(bodies_ix, key=bodies_ix.get))))
+            res = ck.eval_cases(prelude, 'cell_ix', '(check_cell_ix WS BS)', icases, shard=max(60, len(icases) // 16 + 1), timeout=1200)
             bad = [i for i, r in enumerate(res) if r is not True]
             for r in cells:
                 if r['nontrivial']:
